@@ -281,7 +281,7 @@ DRAWABLE_FN = dict(
 
 UNIT = Unit(
     name="bar_draw",
-    properties=["C01", "C04", "C05", "C06", "C18"],
+    properties=["C01", "C03", "C04", "C05", "C06", "C18"],
     prelude=["time", "atomics", "gterm", "tes_opaque", "est_opaque", "style_opaque"],
     rlimit=60,
     trusted=[],
